@@ -67,6 +67,9 @@ func (p *propC16) Gen(idx int) *Scenario {
 	} else {
 		ft := supportedFileTypes[r.Intn(len(supportedFileTypes))]
 		rs := genStream(r, StreamOpts{FT: ft, NData: r.Range(1, 30), Arch: 2, Unknown: true, Dev: r.Chance(1, 3), Compressed: r.Chance(1, 3), CompNoRef: true, Unhosted: true, MaxFields: 6, Hdr14: r.Bool()})
+		if r.Chance(1, 40) {
+			withJumbo(r, rs)
+		}
 		// raise the share of unknown items
 		if r.Chance(1, 2) {
 			g := unknownGlobal(r)
